@@ -29,7 +29,7 @@ import (
 	"github.com/flamego/flamego/verifharness/internal/rt"
 )
 
-const rule = "round = an application with 0..7 separately added middleware, routes of every kind (static via the shortcut, optional static, regex with user groups, placeholder, match-all with capture, header-constrained, named routes whose handlers build URLs, Logger, Recovery, Renderer and Static (with ETags) middleware, AutoHead on (some requests are HEAD), a route that renders JSON through the request-scoped Render service, a route that renders a value the encoder refuses and one whose encoding dawdles, a route whose handler panics, a route that reads the request body, yields and echoes it, a route answering through two return values with a dawdling before-function, Before handlers in front of the router (one passes, one answers some requests itself), an outer parent of the application injector holding a service the handlers resolve, a middleware that maps a per-request token read from a header, handlers that receive it by type and an application service through an interface it implements; some requests make the route's first handler note the token in the request's own parameter map, some are not-found after a partial match, some use a method the router has no table for; expected responses = every distinct request served alone by an instance that has served nothing else; instance B is fresh (nothing lazily cached yet) and is hit by 2..16 goroutines released together, each with its own list of 5..40 requests and runtime.Gosched() yields inside the handlers, under GOMAXPROCS in {2,4,16}. " +
+const rule = "round = an application with 0..7 separately added middleware, routes of every kind (static via the shortcut, optional static, regex with user groups, placeholder, match-all with capture, header-constrained, named routes whose handlers build URLs, Logger, Recovery, Renderer and Static (with ETags; plain files, a missing file, and a directory answered with its long index file) middleware, AutoHead on (some requests are HEAD), a route that renders JSON through the request-scoped Render service, a route that renders a value the encoder refuses and one whose encoding dawdles, a route whose handler panics, a route that reads the request body, yields and echoes it, a route answering through two return values with a dawdling before-function, Before handlers in front of the router (one passes, one answers some requests itself), an outer parent of the application injector holding a service the handlers resolve, a middleware that maps a per-request token read from a header, handlers that receive it by type and an application service through an interface it implements; some requests make the route's first handler note the token in the request's own parameter map, some are not-found after a partial match, some use a method the router has no table for; expected responses = every distinct request served alone by an instance that has served nothing else; instance B is fresh (nothing lazily cached yet) and is hit by 2..16 goroutines released together, each with its own list of 5..40 requests and runtime.Gosched() yields inside the handlers, under GOMAXPROCS in {2,4,16}. " +
 	"Oracle: (1) every concurrent response (status, all response headers and body = route marker + echoed parameters + token + built URL) equals the response to the same request served alone; (2) the Go race detector reports nothing (binary built with -race, GORACE=halt_on_error=1; the driver turns a report into a violation). " +
 	"non-trivial = a round in which >= 2 goroutines start with the same dynamic named route (the first use of lazily cached state is contended) and >= 3 kinds of route are hit; distinct by round text"
 
@@ -52,6 +52,18 @@ func TestMain(m *testing.M) {
 		if err := os.WriteFile(filepath.Join(dir, name), []byte(strings.Repeat(name[:1], size)), 0o644); err != nil {
 			panic(err)
 		}
+	}
+	// a directory answered with its index file, which is long and differs from
+	// place to place
+	var idx strings.Builder
+	for i := 0; i < 70000; i++ {
+		fmt.Fprintf(&idx, "%08d\n", i)
+	}
+	if err := os.MkdirAll(filepath.Join(dir, "docs"), 0o755); err != nil {
+		panic(err)
+	}
+	if err := os.WriteFile(filepath.Join(dir, "docs", "index.html"), []byte(idx.String()), 0o644); err != nil {
+		panic(err)
 	}
 	evid.AtExit(func() { _ = os.RemoveAll(dir) })
 	evid.PersistInflight()
@@ -530,7 +542,7 @@ func genReq(t *rapid.T, n int) Req {
 		q.P = "//users//" + s()
 	case 15:
 		// a file served by the Static middleware (with its ETag)
-		q.P = "/assets/" + []string{"a.txt", "b.txt", "c.css", "d.js", "e.html", "nosuch.txt"}[rapid.IntRange(0, 5).Draw(t, "asset")]
+		q.P = "/assets/" + []string{"a.txt", "b.txt", "c.css", "d.js", "e.html", "nosuch.txt", "docs/", "docs/", "docs"}[rapid.IntRange(0, 8).Draw(t, "asset")]
 	case 14:
 		// not found after part of the path was matched (and captured) on the way
 		q.P = []string{"/users/" + s() + "/extra", "/members/" + s() + "/" + s() + "/more", "/multi/" + s() + "/x", "/files/" + s() + "/a/b/c/d/raw", "/g/" + s() + "/r", "/posts/2021-" + s()}[rapid.IntRange(0, 5).Draw(t, "pm")]
